@@ -283,6 +283,9 @@ class FakeNet:
                 raise ConnectionRefusedError("injected refuse")
             if kind == "timeout":
                 raise TimeoutError("injected connect timeout")
+            if kind == "unreachable":
+                import errno
+                raise OSError(errno.EHOSTUNREACH, "injected: No route to host")   # a plain OSError, no subclass
             if kind == "gaierror":
                 import socket as _s
                 raise _s.gaierror(-2, "injected name resolution failure")
